@@ -30,8 +30,10 @@ FRESH_PROCESS_PER_JOB = True
 MASK_SEED = 0     # seed of the seeded mask streams: fixed, so that --seed cannot change which shares the parties hold
 K_SP = 6          # < 8: the probabilistic zero test runtime._is_zero (error 2^-k by design) is never selected
 RULE = ('one case = (group, operation incl. exponent and operand kinds, element tuple, configuration (m,t,PRSS), mask script); '
-        'single party: all element pairs of the groups of order <= 24 and of the 6-element curve alphabets x {seeded, all-zero, '
-        'all-max} masks, plus every alphabet value at each of the first draws for the reduced alphabets; multi-party: reduced '
+        'single party (thorough): all element pairs of the groups of order <= 24 and of the 7-element curve alphabets x {seeded, all-zero, '
+        'all-max} masks, plus every alphabet value at each of the first draws for the reduced alphabets; quick: all pairs for @ and == '
+        'of the groups of order <= 23 (reduced alphabets for Sym(4), Cl(-71)), every other operation / call site on reduced alphabets, '
+        'seeded and all-max masks; multi-party: reduced '
         'alphabets x mask patterns at (3,1) and (5,2), PRSS on/off; cases outside the documented domain are skipped (public base '
         'with secret field exponent needs a^p = 1 for the exponent field GF(p); lifted exponent fields have no to_bits); '
         'non-trivial = some random draw or more than one party')
@@ -45,6 +47,14 @@ ASSUMPTIONS = [
     'Costello-Lauter divisors (kummer1271): only generic full-degree operands whose results are full-degree (documented restriction)',
     'hyperelliptic curves in affine (Mumford) coordinates need numpy (secpoly) and are not run under /venv/bin/python',
     'sec_param < 8 so that the probabilistic zero test _is_zero is not selected; excluded event: blinding factor 0 in is_zero_public',
+    'every multi-party operation that takes a SecFld exponent runs with sec_param k = 30 and seeded masks only (no all-zero / all-max '
+    'pattern): runtime.to_bits on a shared prime-field element converts to SecInt(1 + bit_length), which has no room for the sum of the '
+    'C(m,t) (or t+1) conversion masks and is right only up to the statistical slack of the masks (as documented for C06/C30)',
+    'the seeded mask streams use a fixed seed (MASK_SEED): --seed changes nothing, so the parties hold the same shares in every run and '
+    'the same violation keys fire on every run',
+    'recorded defect classes carry a law: public base with a secure-integer exponent and m > 1 must still give a^(x + j p) with |j| <= m '
+    '(p = modulus of the integer type, signed residues), a secret base with a negative secure integer a^(x + 2^l); any other wrong '
+    'result in these classes gets the key ...:unexplained(<class>), failures other than wrong values ...:<failure>(<class>)',
     'default eager schedule for multi-party runs (schedule independence is C08)']
 MANIFEST = dict(
     level='exploration',
